@@ -486,6 +486,9 @@ def check_purity(ctx):
 
 
 def run(ctx):
+    from ..lints import check_caches
+
+    check_caches(ctx, "C10-D7 caches", ['measurements.measurements', 'measurements.parities', 'measurements.expectation_values', 'utils'])
     check_positions_not_by_equality(ctx)
     check_expectation_values(ctx)
     check_frequencies(ctx)
